@@ -293,3 +293,50 @@ def stream_body_start(ctx, F, R="R-ORDER"):
     wp = [c for x in lib.local_scope(F, b) for c in x.calls if c.local and c.cname.endswith("Stream::with_position")]
     ctx.ob(R, "stream-body-starts-after-eol|parser::stream", ok and len(wp) == 1, "the parser that consumes the keyword `stream` also consumes the end-of-line after it (%s); the deferred position is its remainder" % how, b.where(),
            what="parser::stream records the position of a stream with unresolved /Length before the end-of-line that follows `stream` (%s): the body read later starts with the line end and loses its last bytes" % how)
+
+
+def prev_chain(ctx, F):
+    """Every cross-reference section of the /Prev chain is read: inside the loop that reads an older section, the value the
+    loop goes by is assigned anew from the /Prev entry of the trailer *just read*, on every turn that goes round again."""
+    import term
+    rd = F.fn("Reader::read")
+    loops = rd.loops()
+    xt = [c for c in rd.calls if c.local and c.cname.endswith("parser::xref_and_trailer") and any(c.bb in bl for bl in loops.values())]
+    ok, why = False, "no loop that reads older cross-reference sections"
+    if xt:
+        # the innermost loop holding the read
+        head, blocks = min(((h, bl) for h, bl in loops.items() if xt[0].bb in bl), key=lambda t: len(t[1]))
+        gets = [c for c in rd.calls if c.bb in blocks and c.local and re.search(r"Dictionary::(get|remove)$", c.cname)
+                and lib._const_bytes_through(rd, c.args[1]) == b"Prev"]
+        why = "the loop never reads /Prev of an older trailer: only the first hop of the chain is followed"
+        for g in gets:
+            recv = rd.sname(g.args[0], 8)
+            if "xref_and_trailer(" not in recv:
+                why = "/Prev is read from %s, not from the trailer of the section just read" % recv[:60]
+                continue
+            # where the value goes: a local assigned both here and before the loop
+            cur, tgt = g.dest["l"], None
+            for _ in range(8):
+                if len([d for d in rd.defs.get(cur, []) if d[2] != "proj"]) >= 2:
+                    tgt = cur
+                    break
+                nxt = [c2.dest["l"] for c2 in rd.calls if c2.args and op_place(c2.args[0]) is not None and op_place(c2.args[0])["l"] == cur and not c2.dest["p"]]
+                nxt += [st_["lhs"]["l"] for _b, _s, st_ in rd.stmts() if "lhs" in st_ and not st_["lhs"]["p"] and st_["rv"]["k"] == "use"
+                        and op_place(st_["rv"]["o"]) is not None and op_place(st_["rv"]["o"])["l"] == cur]
+                if len(set(nxt)) != 1:
+                    break
+                cur = nxt[0]
+            if tgt is None:
+                why = "the /Prev entry read at line %d is not stored in the variable the loop goes by" % g.ln
+                continue
+            outside = [d for d in rd.defs.get(tgt, []) if d[0] not in blocks]
+            if not outside:
+                why = "the loop variable is not initialised from the newest trailer"
+                continue
+            if not term.every_cycle_passes(rd, head, blocks, [g.bb]):
+                why = "a turn of the loop can go round again without taking the next /Prev (line %d is skipped)" % g.ln
+                continue
+            ok, why = True, "the loop variable is re-assigned from xref_and_trailer(..).trailer[/Prev] (line %d) on every cycle" % g.ln
+            break
+    ctx.ob("R-ORDER", "prev-chain-followed-to-its-end", ok, why, rd.where(),
+           what="Reader::read does not follow the /Prev chain to its end (%s): objects that only the third-newest or an older revision defines are missing after loading" % why)
